@@ -81,6 +81,11 @@ def run_case(cs):
         par = rng.choice([""] + [k + "/" for k, v in tree.items() if v is None])
         for nm in {stem.lower() + ".mov", stem.upper() + ".mov", stem.capitalize() + ".MOV"}:
             tree[par + nm] = rng.randbytes(4)
+    if rng.random() < 0.25:
+        # two names that are canonically equivalent but different byte strings (composed / decomposed)
+        par = rng.choice([""] + [k + "/" for k, v in tree.items() if v is None])
+        tree[par + "Caf\u00e9 clip.mov"] = rng.randbytes(4)
+        tree[par + "Cafe\u0301 clip.mov"] = rng.randbytes(5)
     # fodder that user patterns would match
     pats = rng.sample(["*.tmp", "scratch*", "[xy]*"], rng.choice([0, 1, 1, 2]))
     if pats and rng.random() < 0.7:
